@@ -152,8 +152,21 @@ class Kernel:
                     k += 1
         raise Gap("loop at line %s not found in any active function" % extract.line_of(node))
 
+    # When the invariant-based run hits an extraction gap that comes from the loop structure (a refactored
+    # loop no longer matches the invariants keyed to it), the driver re-runs the kernel with every loop
+    # unrolled `bounded_fallback` times and container sizes bounded alike.  A refutation found there is a
+    # concrete counterexample (reported as a violation); a bounded pass proves nothing and the gap stands.
+    bounded_fallback = None
+    bounded_mode = None
+
     def loop_spec(self, ordinal, node):
+        if self.bounded_mode is not None:
+            return LoopSpec(unroll=self.bounded_mode)
         return self.loops.get(ordinal)
+
+    def bound_sizes(self, I, n):
+        """extra preconditions for bounded mode (sizes <= n); override per kernel"""
+        return
 
     def range_for(self, I, n):
         return NotImplemented
@@ -323,6 +336,8 @@ class Kernel:
         outcome = None
         try:
             this, params = self.setup(I)
+            if self.bounded_mode is not None:
+                self.bound_sizes(I, self.bounded_mode)
             fr = Frame(self.fn, this=this)
             pdecls = [p for p in kids(self.fn) if p["kind"] == "ParmVarDecl"]
             args = []
